@@ -29,6 +29,12 @@ ASSUMPTIONS = ["healpy.query_disc/query_polygon(inclusive=True) return a "
                "healpy angle conventions (colatitude, longitude in radians)"]
 
 MUTANTS = [
+    ("negative RA wrapped by 2 pi in the unit-agnostic packer",
+     "AegeanTools/regions.py",
+     "            sky = np.array([(ra, dec)])\n        return sky",
+     "            sky = np.array([(ra, dec)])\n"
+     "        sky[:, 0] = np.where(sky[:, 0] < 0, sky[:, 0] + 2*np.pi, "
+     "sky[:, 0])\n        return sky", "C09-R8"),
     ("cache cleared in place while it aliases the level set",
      "AegeanTools/regions.py",
      "        self.demoted = set()\n\n    def get_area",
@@ -171,6 +177,7 @@ def run(ctx):
     sw, g, rets, rname = nonfinite_rule(ctx, prog, ci, "C09-R3")
     # ---------------------------------------------------------------- R6
     membership_rule(ctx, prog, sw, g, rets, rname, "C09-R6")
+    r8_unit_agnostic(ctx, prog, ci, sw)
     # ---------------------------------------------------------------- R4
     ctx.rule("C09-R4", "radec2sky: scalar fallback on TypeError; the result "
              "is a 2-column array for any number of positions")
@@ -433,3 +440,79 @@ def membership_for(ctx, prog, ci, rule):
         raise AnalysisError(rule + ": sky_within return sites")
     membership_rule(ctx, prog, sw, g, rets, norm(g.stmt[rets[0]].value),
                     rule)
+
+
+def r8_unit_agnostic(ctx, prog, ci, sw):
+    """what runs on the positions BEFORE `if degin: sky = np.radians(sky)`
+    sees degrees or radians, so it may not contain a unit-specific
+    constant"""
+    ctx.rule("C09-R8", "positions given in degrees or radians: everything "
+             "applied to the positions before the degin conversion "
+             "(radec2sky, statements of sky_within in front of it) is "
+             "unit-agnostic -- no angular constant (pi, 2 pi, 180, 360 ...) is "
+             "added to, subtracted from or compared with them")
+    mod = prog.modules[sw.module]
+    # the conversion: whatever is assigned under a test on the degin
+    # parameter (np.radians(sky), sky * np.pi / 180, a conditional expression)
+    conv = [st for iff in walk_no_nested(sw.node) if isinstance(iff, ast.If)
+            and "degin" in names_in(iff.test)
+            for st in iff.body if isinstance(st, (ast.Assign,
+                                                  ast.AugAssign))]
+    conv += [st for st in walk_no_nested(sw.node)
+             if isinstance(st, ast.Assign) and isinstance(st.value, ast.IfExp)
+             and "degin" in names_in(st.value.test)]
+    if not conv:
+        raise AnalysisError("C09-R8: degin conversion of sky_within")
+    first = min(c.lineno for c in conv)
+    scope = []          # (FuncInfo, statements)
+    pre = [st for st in walk_no_nested(sw.node) if isinstance(st, ast.stmt)
+           and st.lineno < first and not isinstance(st, (ast.If, ast.For))]
+    scope.append((sw, pre))
+    for st in pre:
+        for c in ast.walk(st):
+            if isinstance(c, ast.Call) and isinstance(c.func, ast.Attribute) \
+                    and norm(c.func.value) in ("self", "Region") \
+                    and c.func.attr in ci.methods:
+                h = ci.methods[c.func.attr]
+                scope.append((h, [x for x in walk_no_nested(h.node)
+                                  if isinstance(x, ast.stmt)]))
+    import math
+
+    def angular(e):
+        d = prog.dotted(mod, e) if isinstance(e, ast.Attribute) else None
+        if d in ("numpy.pi", "math.pi"):
+            return True
+        if isinstance(e, ast.Constant) and isinstance(e.value, (int, float)) \
+                and not isinstance(e.value, bool):
+            v = abs(float(e.value))
+            return any(abs(v - k) < 1e-6 for k in (
+                90, 180, 270, 360, math.pi, 2 * math.pi, math.pi / 2))
+        if isinstance(e, ast.BinOp) and isinstance(e.op, (ast.Mult,
+                                                           ast.Div)):
+            return angular(e.left) or angular(e.right)
+        return False
+    n = 0
+    for fi_, stmts in scope:
+        n += 1
+        bad = []
+        for st in stmts:
+            for x in ast.walk(st):
+                if isinstance(x, ast.BinOp) and isinstance(
+                        x.op, (ast.Add, ast.Sub, ast.Mod)) and (
+                            angular(x.left) or angular(x.right)):
+                    bad.append(x)
+                if isinstance(x, ast.AugAssign) and isinstance(
+                        x.op, (ast.Add, ast.Sub, ast.Mod)) and \
+                        angular(x.value):
+                    bad.append(x)
+                if isinstance(x, ast.Compare) and any(
+                        angular(y) for y in [x.left] + x.comparators):
+                    bad.append(x)
+        ctx.check("C09-R8", fi_, "no angular constant before the degin "
+                  "conversion in " + fi_.short, not bad,
+                  "`%s` uses a unit-specific constant on positions that are "
+                  "in degrees when degin=True and in radians otherwise: one "
+                  "of the two conventions is shifted / wrapped by the wrong "
+                  "amount" % (norm(bad[0], 60) if bad else ""),
+                  node=bad[0] if bad else fi_.node)
+    ctx.floor("C09-R8", n, 2, "unit-agnostic stages of sky_within")
